@@ -499,10 +499,10 @@ theorem runValidators_true (fs : List Fn) (x : V) :
   | cons f fs ih =>
     rw [runValidators_cons hw]
     cases hc : validatorCond f x with
-    | fails => simp
+    | fails => simp [hc]
     | holds =>
       simp only [bump, addErrs, ih, List.all_cons, hc, beq_self_eq_true, Bool.true_and]
-      split <;> simp
+      cases (fs.all fun f => validatorCond f x == Cond.holds) <;> simp
 
 /-- **Check with a default, as an equation**: the target when every condition holds on the
     subject, `arg_val(default)` against the subject otherwise -/
